@@ -232,7 +232,7 @@ PLANS = {
         ],
     },
     "C13": {
-        "technique": 'property-based testing of a cost bound: generated adversarial families measured with a deterministic step counter (absolute bound + x4 scaling relation)',
+        "technique": 'property-based testing of a cost bound: fixed and proptest-generated adversarial families measured with a deterministic step counter (absolute bound + x4 / x16 scaling relations + cost-per-byte growth)',
         "rule": "The hook's step counter is read around (build finder + operation) for find, rfind, complete find_iter / rfind_iter traversals and the one-shot "
                 "functions on 12 adversarial families (a^(m-1)b in (a^(m-1)c)^r and in a^n, a^m in (a^(m-1)b)^r, needles > 255 bytes over two common bytes, "
                 "periodic needles in near-periods, pair bytes recurring everywhere, Fibonacci, Thue-Morse, quiet prefix then dense false candidates, empty "
@@ -275,11 +275,13 @@ PLANS = {
     "C15": {
         "technique": 'generated thread programs in fresh processes compared with the sequential-after reference; schedule exploration under Miri seeds; ThreadSanitizer (thorough)',
         "rule": "proptest generates thread programs (2..=16 threads (32 thorough), 1..=6 operations each over the seven dispatched memchr routines, a shared "
-                "Finder / FinderRev, complete find_iter traversals, and memchr iterators advanced on one thread and handed to another through a channel); each "
+                "Finder / FinderRev, complete find_iter traversals, memchr iterators advanced on one thread and handed to another through a channel, and the "
+                "one-shot memmem::find / rfind / find_iter with a per-call needle length on private < 64-byte haystacks with the needle planted at an offset >= 1 "
+                "(flavor 'one-shot storm': only such calls); every thread repeats each operation 1 / 20 / 400 times so that calls overlap in time natively; each "
                 "program runs in a FRESH mvexec process so the dispatch cache is uninitialised, all threads are released by a barrier and race to install the "
                 "implementation; every observed result is compared with what the same call returns when executed on its own after all threads have finished "
                 "(the property's 'what it would return in isolation'). Three forced CPU levels; Miri-owned schedules for a sample. "
-                "Non-trivial: >= 2 threads whose first operation is the same dispatched routine.",
+                "Non-trivial: >= 2 threads whose first operation is the same dispatched routine, or >= 2 threads in one-shot memmem::find with needles of different lengths.",
         "stages": [
             {"name": "threads", "cmd": "threads", "configs": cfgs(NATIVE), "shards": shards(16, 16), "needs_mvexec": True, "args": ["--scale", "16"]},
             {"name": "miri-schedules", "kind": "miri-threads", "configs": cfgs(["N-auto", "M-x86", "M-avx2"]),
@@ -293,9 +295,10 @@ PLANS = {
         "technique": 'model-based stateful property testing: generated operation histories (reuse, clone, as_ref, into_owned, freed needle buffer) against fresh-finder references',
         "rule": "Model-based histories: op lists (<= 40 before, <= 30 after the needle buffer is overwritten with garbage and freed) over Find/Rfind on any of 3-7 "
                 "needle-derived haystacks (incl. one that exhausts the prefilter), StartIter/StartRevIter, Step, CloneFinder, AsRef, IntoOwned, CloneIter, "
-                "IntoOwnedIter, CheckNeedle. Reference: a FRESH finder's answer for that haystack (history independence), a fresh uninterrupted iterator's sequence for clones and "
+                "IntoOwnedIter, CheckNeedle, and Buf (the haystack, cut / padded to a fixed length, is copied into ONE reused buffer that is then searched with find / "
+                "rfind / find_iter / rfind_iter: same address and length, different contents). Reference: a FRESH finder's answer for that haystack (history independence), a fresh uninterrupted iterator's sequence for clones and "
                 "owned conversions (they must continue at the same index); needle() equals the construction needle. The whole op vector shrinks as one value. "
-                "Non-trivial: >= 3 searches over >= 3 haystacks on one finder, or a clone/into_owned taken from a partially consumed iterator.",
+                "Non-trivial: >= 3 searches over >= 3 haystacks on one finder, a clone/into_owned taken from a partially consumed iterator, or >= 2 searches of the reused buffer.",
         "stages": [
             {"name": "history", "cmd": "history", "configs": cfgs(NATIVE + EMU), "shards": shards(16, 16, 8, 8), "args": ["--scale", "6"]},
             miri_stage("H", quick=40, thorough=2000, targets=["M-x86"]),
@@ -305,7 +308,9 @@ PLANS = {
         "technique": 'property-based testing with a counting global allocator armed around every generated API call (with positive control)',
         "rule": "A counting #[global_allocator] is armed around each API call: Finder::new, FinderRev::new, FinderBuilder (Prefilter::None, build_reverse, custom "
                 "ranker), find, rfind, memmem::find/rfind, complete find_iter/rfind_iter traversals (top-level and finder), as_ref+clone, memchr/2/3, "
-                "memrchr/2/3 and their iterators (next, next_back, count) - 27 calls per generated (needle, haystack) from the C03 / prefilter-phase / "
+                "memrchr/2/3 and their forward and reverse iterators (next, next_back, count, size_hint); find / rfind / both iterators / as_ref / needle on finders that OWN "
+                "their needle (into_owned itself performed with the probe disarmed); the arch-level One/Two/Three searchers of the configuration (arch::all, sse2, avx2, "
+                "neon, simd128: find, rfind, count, iterators); construction and search of twoway, rabinkarp and the portable packed-pair prefilter - about 60 calls per generated (needle, haystack) from the C03 / prefilter-phase / "
                 "short-fallback generators, plus the very first search of the fresh process (CPU detection). The count must stay 0. Positive control per run: "
                 "into_owned and shiftor::Finder::new must register >= 1 allocation, otherwise the run is inconclusive. Non-trivial: needle >= 2 and haystack >= 16.",
         "stages": [
